@@ -108,6 +108,7 @@ fn observe<K: Kern<D>, const D: usize>(tr: &Tracer, o: &Obj<K, D>) -> Value {
 pub fn run_history<K: Kern<D>, const D: usize>(tr: &mut Tracer, hist: &[Value], uuid_ctr: &mut u64) {
     let mut objs: HashMap<i64, Obj<K, D>> = HashMap::new();
     let mut hull: Option<ConvexHull<K, VData, CData, D>> = None;
+    let mut hull_src: i64 = 0; // the slot the hull was taken from (overwriting that slot drops the hull, as in Caches.tla)
     let s = tr.s;
     let mut fresh = || {
         *uuid_ctr += 1;
@@ -275,6 +276,9 @@ pub fn run_history<K: Kern<D>, const D: usize>(tr: &mut Tracer, hist: &[Value], 
                     let o2 = step["o2"].as_i64().unwrap_or(2);
                     let c = objs.get(&o).unwrap().dt.clone();
                     objs.insert(o2, Obj { dt: c });
+                    if hull.is_some() && hull_src == o2 {
+                        hull = None;
+                    }
                 }
                 "SerDe" => {
                     let o2 = step["o2"].as_i64().unwrap_or(2);
@@ -285,6 +289,9 @@ pub fn run_history<K: Kern<D>, const D: usize>(tr: &mut Tracer, hist: &[Value], 
                             let g = src.topology_guarantee();
                             let c = Dt::<K, D>::from_tds_with_topology_guarantee(tds, K::default(), g);
                             objs.insert(o2, Obj { dt: c });
+                            if hull.is_some() && hull_src == o2 {
+                                hull = None;
+                            }
                         }
                         Err(_) => res = "Err".into(),
                     }
@@ -292,7 +299,10 @@ pub fn run_history<K: Kern<D>, const D: usize>(tr: &mut Tracer, hist: &[Value], 
                 "HullCreate" => {
                     let ob = objs.get(&o).unwrap();
                     match ConvexHull::from_triangulation(ob.dt.as_triangulation()) {
-                        Ok(h) => hull = Some(h),
+                        Ok(h) => {
+                            hull = Some(h);
+                            hull_src = o;
+                        }
                         Err(_) => res = "Err".into(),
                     }
                 }
